@@ -46,6 +46,7 @@ var dischargeTable = []discharge{
 	{fn: "types/bytecode.EncodeSrc", msg: "srcAddr out of range", known: true, reason: "reachable by program size: the limit is enforced by panic"},
 	{fn: "types/bytecode.EncodeSrc", msg: "wrong srcsel", via: []string{"bcai:B1"}, reason: "every operand selector in the compiler is a constant 0..2"},
 	{fn: "(types/bytecode.Type).Src", via: []string{"bcai:B1"}, reason: "Src is called with selectors 0 and 1 only"},
+	{fn: "(types/node.For).byteCode", via: []string{"bcai:B1", "bcai:B2", "grammar:G7"}, reason: "loops are explored with as many variables as iterators; the parser refuses every other loop (G7), so the count mismatch panic is unreachable"},
 	{fn: "(types/node.*).byteCode", via: []string{"bcai:B1", "bcai:B2"}, reason: "never reached in the exhaustive exploration of the compiler (a reached panic is reported as B0)"},
 	{fn: "(types/node.*).STRewrite", via: []string{"strw:S1", "strw:S3", "strw:S4", "pipeline:P2"}, reason: "every STRewrite method evaluated; parser output contains no Local/Closure and trees are rewritten exactly once"},
 	{fn: "(*types/value.Type).SetFrame", via: []string{"vmshape:V7", "vmshape:V13", "bcai:B10"}, reason: "FUNC operands are function constants; RET calls it under ToFunction ok"},
